@@ -252,6 +252,14 @@ var targets = []target{
 		from: "var index =", to: "return c.shardings", liveOut: []string{"index"},
 		doc: "the shard a key belongs to, from its hash (an input) and the number of shards"},
 	{pkg: "gws", fn: "PermessageDeflate.setThreshold", lean: "PermessageDeflate_setThreshold"},
+	{pkg: "gws", fn: "Upgrader.getPermessageDeflate", lean: "Upgrader_getPermessageDeflate",
+		skip:    []string{"clientPD := permessageNegotiation(extensions)"},
+		oracles: map[string]string{"strings.Contains(extensions, internal.PermessageDeflate)": "offered"},
+		doc:     "the parameters the server keeps for a connection: its own settings combined with what the client's offer (parsed by permessageNegotiation: an input, `clientPD_*`) asks for; `offered` = the offer names the extension"},
+	{pkg: "gws", fn: "connector.getPermessageDeflate", lean: "connector_getPermessageDeflate",
+		skip:    []string{"serverPD := permessageNegotiation(extensions)"},
+		oracles: map[string]string{"strings.Contains(extensions, internal.PermessageDeflate)": "offered"},
+		doc:     "the parameters the client keeps for a connection: its own settings and what the server's response (parsed by permessageNegotiation: an input, `serverPD_*`) says"},
 	{pkg: "gws", fn: "initServerOption", lean: "initServerOption_limits",
 		from: "if c.ReadMaxPayloadSize <= 0", to: "if c.Authorize == nil",
 		doc: "the defaults initServerOption gives to the size limits and the parallelism"},
@@ -428,6 +436,9 @@ type fn struct {
 	segment  bool
 	noReturn bool
 	locals   map[string]bool
+	structRet bool             // the function returns a struct (as the tuple of its fields)
+	copyAlias map[string]bool  // struct copies (`x := path`): read-only second names
+	localStruct map[string][]string // `pd := T{F: e, …}` kept as a value: variable -> its fields (Lean locals pd_F)
 	ptrAlias map[string]string // `cf := &c.continuationFrame`: a local pointer to a struct field path stands for that path
 	stale    map[string]bool // ignored variables that have been assigned (their value is unknown from then on)
 	tsBind   string          // inside a type-switch clause: which GoErr constructor the bound variable is the payload of
@@ -480,6 +491,9 @@ func (f *fn) pathOf(e ast.Expr) (string, bool) {
 	case *ast.StarExpr:
 		return f.pathOf(v.X)
 	case *ast.Ident:
+		if f.localStruct[v.Name] != nil {
+			return "", false
+		}
 		if pth, ok := f.ptrAlias[v.Name]; ok {
 			return pth, true
 		}
@@ -661,6 +675,9 @@ func (f *fn) expr(e ast.Expr) string {
 			if _, isVar := f.p.info.Uses[id].(*types.Var); isVar && strings.HasSuffix(f.typeOf(v.X).String(), "internal.Error") {
 				return leanIdent(id.Name) + "_Code"
 			}
+		}
+		if id, ok := v.X.(*ast.Ident); ok && f.localStruct[id.Name] != nil {
+			return leanIdent(id.Name) + "_" + v.Sel.Name
 		}
 		if path, ok := f.pathOf(v); ok {
 			return f.usePath(path, tv.Type, e)
@@ -1081,8 +1098,16 @@ func (f *fn) call(c *ast.CallExpr) string {
 		args = append(args, f.expr(a))
 	}
 	// the callee's field paths, re-rooted at the receiver expression of this call
+	localRecv := ""
+	if id, ok := recvExpr.(*ast.Ident); ok && f.localStruct[id.Name] != nil {
+		localRecv = id.Name
+	}
 	for _, pp := range r.pathParams {
 		rest := strings.TrimPrefix(pp, r.recvName)
+		if localRecv != "" { // the receiver is a struct built in this function: its fields are plain locals
+			args = append(args, leanIdent(localRecv)+"_"+strings.TrimPrefix(rest, "."))
+			continue
+		}
 		base, ok := f.pathOf(recvExpr)
 		if !ok {
 			f.bad(c, "callee reads fields of a receiver that is not a field path here")
@@ -1121,7 +1146,7 @@ func (f *fn) call(c *ast.CallExpr) string {
 	}
 	if !r.hasRecvVal { // the callee assigns fields of its receiver: rebind the same fields of the receiver expression here
 		base, ok := f.pathOf(recvExpr)
-		if !ok {
+		if !ok && localRecv == "" {
 			f.bad(c, "callee assigns fields of a receiver that is not a field path here")
 		}
 		var names []string
@@ -1129,6 +1154,11 @@ func (f *fn) call(c *ast.CallExpr) string {
 			found := false
 			for _, pp := range r.pathParams {
 				if leanIdent(pp) == st {
+					if localRecv != "" {
+						names = append(names, leanIdent(localRecv)+"_"+strings.TrimPrefix(strings.TrimPrefix(pp, r.recvName), "."))
+						found = true
+						continue
+					}
 					full := base + strings.TrimPrefix(pp, r.recvName)
 					names = append(names, leanIdent(full))
 					f.state[leanIdent(full)] = true
@@ -1190,6 +1220,12 @@ func (f *fn) lvalueName(e ast.Expr) string {
 			return leanIdent(v.Name)
 		}
 	case *ast.SelectorExpr:
+		if id, ok := v.X.(*ast.Ident); ok && f.copyAlias[id.Name] {
+			f.bad(e, "assignment to a field of a struct copy")
+		}
+		if id, ok := v.X.(*ast.Ident); ok && f.localStruct[id.Name] != nil {
+			return leanIdent(id.Name) + "_" + v.Sel.Name // a field of a struct built in this function: a plain local
+		}
 		if path, ok := f.pathOf(v); ok {
 			name := f.usePath(path, f.typeOf(v), e)
 			f.state[name] = true
@@ -1263,6 +1299,14 @@ func (f *fn) assigned(n ast.Node) []string {
 						r := f.tr.translate(tk)
 						if len(r.state) > 0 && r.hasRecvVal {
 							note(sel.X)
+						} else if id, isId := sel.X.(*ast.Ident); len(r.state) > 0 && isId && f.localStruct[id.Name] != nil {
+							for _, stn := range r.state {
+								for _, pp := range r.pathParams {
+									if leanIdent(pp) == stn {
+										set[leanIdent(id.Name)+"_"+strings.TrimPrefix(strings.TrimPrefix(pp, r.recvName), ".")] = true
+									}
+								}
+							}
 						} else if len(r.state) > 0 {
 							if base, ok := f.pathOf(sel.X); ok {
 								for _, stn := range r.state {
@@ -1422,6 +1466,18 @@ func (f *fn) block(list []ast.Stmt, k cont) string {
 				}
 			}
 		}
+		if rhs != nil && name != "" {
+			if pth, ok := f.pathOf(rhs); ok {
+				if _, isStruct := f.typeOf(rhs).Underlying().(*types.Struct); isStruct && !isBuffer(f.typeOf(rhs)) {
+					// a COPY of the struct at that path: the same values as long as neither is assigned afterwards (an
+					// assignment to a field of the copy is refused below because the copy has no storage of its own here)
+					f.ptrAlias[name] = pth
+					f.copyAlias[name] = true
+					f.locals[name] = true
+					return next()
+				}
+			}
+		}
 		if u, ok := rhs.(*ast.UnaryExpr); ok && name != "" && u.Op == token.AND {
 			if pth, ok := f.pathOf(u.X); ok {
 				if _, isStruct := f.typeOf(u.X).Underlying().(*types.Struct); isStruct {
@@ -1429,6 +1485,41 @@ func (f *fn) block(list []ast.Stmt, k cont) string {
 					f.locals[name] = true
 					return next()
 				}
+			}
+		}
+	}
+	// `pd := T{F: e, …}` (a struct VALUE, not &T{…}) that is used as a value afterwards: one Lean local per field, missing
+	// fields are zero
+	if as, ok := s.(*ast.AssignStmt); ok && as.Tok == token.DEFINE && len(as.Lhs) == 1 && len(as.Rhs) == 1 {
+		if lit, ok := as.Rhs[0].(*ast.CompositeLit); ok {
+			if st, ok := f.typeOf(lit).Underlying().(*types.Struct); ok && !isBuffer(f.typeOf(lit)) {
+				name := as.Lhs[0].(*ast.Ident).Name
+				given := map[string]ast.Expr{}
+				for _, el := range lit.Elts {
+					kv, ok := el.(*ast.KeyValueExpr)
+					if !ok {
+						f.bad(s, "positional struct literal")
+					}
+					given[kv.Key.(*ast.Ident).Name] = kv.Value
+				}
+				var fields []string
+				for i := 0; i < st.NumFields(); i++ {
+					fld := st.Field(i)
+					lt, ok := f.tr.leanType(fld.Type())
+					if !ok {
+						f.bad(s, "struct literal with a field of unsupported type "+fld.Name())
+					}
+					val := zeroOf(fld.Type(), lt)
+					if e, ok := given[fld.Name()]; ok {
+						val = f.expr(e)
+					}
+					f.flush(&sb)
+					fmt.Fprintf(&sb, "let %s_%s : %s := %s\n", leanIdent(name), fld.Name(), lt, val)
+					fields = append(fields, fld.Name())
+				}
+				f.localStruct[name] = fields
+				f.locals[name] = true
+				return sb.String() + next()
 			}
 		}
 	}
@@ -1939,6 +2030,13 @@ func (f *fn) tupleCall(st *ast.AssignStmt) (string, bool) {
 
 // resultValue: a returned expression, given the Lean type of the result position
 func (f *fn) resultValue(r ast.Expr, lt string) string {
+	if id, ok := r.(*ast.Ident); ok && f.localStruct[id.Name] != nil {
+		var vals []string
+		for _, fn := range f.localStruct[id.Name] {
+			vals = append(vals, leanIdent(id.Name)+"_"+fn)
+		}
+		return tuple(vals)
+	}
 	if id, ok := r.(*ast.Ident); ok && id.Name == "nil" && lt == "(List UInt8)" {
 		return "([] : List UInt8)"
 	}
@@ -2250,7 +2348,7 @@ func (tr *translator) translate(key string) *result {
 	if !ok {
 		fail("function %s.%s not found", t.pkg, t.fn)
 	}
-	f := &fn{tr: tr, p: p, decl: decl, t: t, pathSet: map[string]string{}, oracleSet: map[string]string{}, state: map[string]bool{}, locals: map[string]bool{}, alias: map[string]string{}, streams: map[string]bool{}, structs: map[string][]string{}, freeSig: map[string][]string{}, structTy: map[string]string{}, freeCont: map[string]bool{}, stale: map[string]bool{}, ptrAlias: map[string]string{}}
+	f := &fn{tr: tr, p: p, decl: decl, t: t, pathSet: map[string]string{}, oracleSet: map[string]string{}, state: map[string]bool{}, locals: map[string]bool{}, alias: map[string]string{}, streams: map[string]bool{}, structs: map[string][]string{}, freeSig: map[string][]string{}, structTy: map[string]string{}, freeCont: map[string]bool{}, stale: map[string]bool{}, ptrAlias: map[string]string{}, copyAlias: map[string]bool{}, localStruct: map[string][]string{}}
 	if decl.Recv != nil && len(decl.Recv.List) == 1 && len(decl.Recv.List[0].Names) == 1 {
 		f.recv, _ = p.info.Defs[decl.Recv.List[0].Names[0]].(*types.Var)
 	}
@@ -2258,6 +2356,22 @@ func (tr *translator) translate(key string) *result {
 	for i := 0; i < sig.Results().Len(); i++ {
 		v := sig.Results().At(i)
 		lt, ok := tr.leanType(v.Type())
+		if st, isStruct := v.Type().Underlying().(*types.Struct); !ok && isStruct {
+			// a struct result: the tuple of its fields, in declaration order
+			var parts []string
+			all := true
+			for k := 0; k < st.NumFields(); k++ {
+				flt, ok2 := tr.leanType(st.Field(k).Type())
+				if !ok2 {
+					all = false
+				}
+				parts = append(parts, flt)
+			}
+			if all {
+				lt, ok = strings.Join(parts, " × "), true
+				f.structRet = true
+			}
+		}
 		if !ok {
 			if t.from == "" && t.fromAfter == "" {
 				fail("%s: result of unsupported type %s", key, v.Type())
